@@ -682,9 +682,23 @@ pub fn gen_string(rng: &mut Rng) -> String {
         0 => 0,
         1 => 1,
         2 if !cfg!(miri) => 10_000,
+        // lengths around powers of two: a fixed-size staging buffer or a length cast shows there
+        3 if !cfg!(miri) => *rng.pick(&[127usize, 128, 129, 255, 256, 257, 511, 512, 513, 1023, 1024, 4095, 4096, 4097]),
         _ => rng.range(1, if cfg!(miri) { 10 } else { 40 }) as usize,
     };
     let mut s = String::new();
+    // composition for the boundary lengths: only characters outside the BMP (units = 2 x chars), only
+    // ASCII (units = chars), or ASCII with a single astral character (units = chars + 1)
+    if n >= 127 && n != 10_000 {
+        let mode = rng.below(3);
+        let astral_at = rng.usize_below(n);
+        for i in 0..n {
+            let astral = mode == 0 || (mode == 2 && i == astral_at);
+            let cp = if astral { rng.range(0x1F300, 0x1FAFF) as u32 } else { rng.range(0x21, 0x7e) as u32 };
+            s.push(char::from_u32(cp).unwrap_or('x'));
+        }
+        return s;
+    }
     for _ in 0..n {
         let cp = match rng.below(10) {
             0 => rng.range(0x20, 0x7e) as u32,
